@@ -47,3 +47,22 @@ func (NopObserver) ExtraGroups(s *Sim, g *Gen, ev *eval.BlockEvaluator, hdr *boo
 func (NopObserver) GroupResult(s *Sim, ev *eval.BlockEvaluator, c Candidate, stage string, err error) {}
 func (NopObserver) BlockDone(s *Sim, prev, next *State, blk bookkeeping.Block, delta ledgercore.StateDelta) {
 }
+
+// HeaderChooser (optional): called right after the next header was derived from the previous one and
+// before evaluation starts; lets an observer play the proposer's header choices (upgrade votes).
+type HeaderChooser interface {
+	ChooseHeader(s *Sim, g *Gen, hdr *bookkeeping.BlockHeader)
+}
+
+// BlockTamperer (optional): called with the honestly generated block BEFORE it is validated and
+// added; the ledger is still at the previous round, so tampered variants can be offered to
+// s.led.Validate (a Byzantine proposer / corrupting transport). Must not mutate blk.
+type BlockTamperer interface {
+	TamperBlock(s *Sim, g *Gen, blk bookkeeping.Block)
+}
+
+// NontrivialJudge (optional): an observer's own notion of "this run exercised my property"; ANDed
+// with the generic rule when computing RunResult.Nontrivial.
+type NontrivialJudge interface {
+	Nontrivial(s *Sim) bool
+}
